@@ -324,6 +324,13 @@ def run_case(case):
                     bad("fog.nearest_right", 0, [nv], lambda: fog.nearest_right(nv), "ValueError", state)
                 elif which == 6:
                     bad("fog.mark_all_complete", 0, [[nv]], lambda: fog.mark_all_complete([nv]), "ValueError", state)
+                    if first:
+                        # a valid unexplored prefix before the malformed one: the refusal must not have consumed it
+                        # (seeded change C18-mark-all-complete-aliases was invisible with a lone malformed prefix)
+                        bad("fog.mark_all_complete", 0, [[list(first[0]), nv]], lambda: fog.mark_all_complete([first[0], nv]),
+                            "ValueError", state)
+                        bad("fog.mark_all_complete", 0, [[list(first[0]), nt]], lambda: fog.mark_all_complete([first[0], nt]),
+                            "TypeError", state)
                 elif which == 7:
                     bad("nibbles.new", 0, [nt], lambda: Nibbles(nt), "TypeError")
                     bad("nibbles.new", 0, [nv], lambda: Nibbles(nv), "ValueError")
